@@ -1,2 +1,78 @@
-From MV Require Import Common.Batch C33.Model.
-Theorem C33_placeholder : True. Proof. exact I. Qed.
+(* C33 -- Job workers run every accepted job once and report the first error.  Property theorems only.
+   Model: C33/Model.v (util/worker.go BaseJobWorker as a state machine over arbitrary histories of
+   NewJob / job end / Done / Cancel / Wait; BatchWork = Common/Batch.v). *)
+From Coq Require Import List Arith Permutation.
+From MV Require Import Common.Batch C33.Model C33.Proofs.
+Import ListNotations.
+
+(* In every history: the callbacks invoked are exactly those of the accepted jobs 0..count-1, each
+   once, and every accepted job is either running or finished (never both, never twice). *)
+Theorem C33_each_once : forall sz ecb ops,
+  runs (run sz ecb ops) = seq 0 (count (run sz ecb ops)) /\
+  Permutation (running (run sz ecb ops) ++ finished (run sz ecb ops)) (seq 0 (count (run sz ecb ops))).
+Proof. exact each_once. Qed.
+
+(* Wait returns nil only when no accepted job was running; then every accepted job has been invoked
+   once and has finished, and no later step accepts or runs another job. *)
+Theorem C33_wait_all_no_error : forall sz ecb ops r,
+  wret (run sz ecb ops) = Some (None, r) ->
+  r = [] /\ running (run sz ecb ops) = [] /\
+  Permutation (finished (run sz ecb ops)) (seq 0 (count (run sz ecb ops))) /\
+  runs (run sz ecb ops) = seq 0 (count (run sz ecb ops)) /\
+  forall ops', count (run sz ecb (ops ++ ops')) = count (run sz ecb ops) /\
+               running (run sz ecb (ops ++ ops')) = [].
+Proof. exact wait_nil_all_done. Qed.
+
+(* The error Wait returns is the recorded cause, and the cause never changes once set; a job error
+   as cause is the error of a job that failed while running when no cause was recorded yet (the
+   first error); after a cause is recorded no further job is accepted (the remaining work is cancelled). *)
+Theorem C33_first_error : forall sz ecb ops,
+  (forall e r, wret (run sz ecb ops) = Some (Some e, r) ->
+     cause (run sz ecb ops) = Some e /\ forall ops', cause (run sz ecb (ops ++ ops')) = Some e) /\
+  (forall id, cause (run sz ecb ops) = Some (EJob id) ->
+     exists ops1 ops2, ops = ops1 ++ OJobEnd id true :: ops2 /\
+       cause (run sz ecb ops1) = None /\ In id (running (run sz ecb ops1)) /\ errcb (run sz ecb ops1) = false) /\
+  (forall ops', cause (run sz ecb ops) <> None -> count (run sz ecb (ops ++ ops')) = count (run sz ecb ops)).
+Proof.
+  intros sz ecb ops. split; [|split].
+  - intros e r. apply wait_error_is_cause.
+  - apply job_cause_is_first.
+  - intros ops' H. apply cause_stops_accepting. assumption.
+Qed.
+
+(* BatchWork: for every size, limit >= 1 and job order inside the batches, the calls are
+   pref(last_1), the jobs of batch 1, pref(last_2), the jobs of batch 2, ...; every index of
+   [0..size-1] is visited exactly once. *)
+Theorem C33_batches : forall size limit orders, 1 <= limit -> 1 <= size ->
+  valid_orders (batches size limit) orders ->
+  batch_trace size limit orders = Ok (expected_trace (batches size limit) orders) /\
+  Permutation (trace_jobs (expected_trace (batches size limit) orders)) (seq 0 size) /\
+  NoDup (trace_jobs (expected_trace (batches size limit) orders)).
+Proof. exact batches_trace. Qed.
+
+(* The strict reading "Wait waits for all accepted jobs, also after an error" (the Go doc comment)
+   is FALSE of the code: job 0 parked, job 1 fails, Wait returns job 1's error while job 0 runs.
+   Known finding class wait-returns-before-running-jobs-end-on-error; replayed on the real code each run. *)
+Definition C33_witness : list op := [ONewJob; ONewJob; ODone; OWait; OJobEnd 1 true].
+
+Theorem C33_wait_all_always_refuted :
+  ~ (forall sz ecb ops x r, wret (run sz ecb ops) = Some (x, r) -> r = []).
+Proof.
+  intros H. specialize (H 2 false C33_witness (Some (EJob 1)) [0]).
+  assert (E : wret (run 2 false C33_witness) = Some (Some (EJob 1), [0])) by (vm_compute; reflexivity).
+  specialize (H E). discriminate.
+Qed.
+
+(* non-vacuity *)
+Example C33_example_wait_nil :
+  wret (run 2 false [ONewJob; ONewJob; ODone; OWait; OJobEnd 1 false; OJobEnd 0 false]) = Some (None, []).
+Proof. vm_compute. reflexivity. Qed.
+
+Example C33_example_blocked_newjob_gets_job_error :
+  snd (step (run 1 false [ONewJob; ONewJob]) (OJobEnd 0 true)) = Some (NJRejected (EJob 0)).
+Proof. vm_compute. reflexivity. Qed.
+
+Example C33_example_trace :
+  batch_trace 5 2 (in_order (batches 5 2)) =
+  Ok [BPref 1; BJob 0 1; BJob 1 1; BPref 3; BJob 2 3; BJob 3 3; BPref 4; BJob 4 4].
+Proof. vm_compute. reflexivity. Qed.
